@@ -84,7 +84,11 @@ def run_property(prop, a, seed, t0):
             elif vc["status"] == "disagree":
                 crashes.append((key[0], f"solver disagreement on {vc['name']} @ {vc['path']}: {vc['note']}"))
             else:
-                undecided.append((key[0], f"{vc['name']} @ {vc['path']}: solver {vc['status']} {vc['note']}", key))
+                kf = driver.match_known(known, key[0], vc["name"], vc["path"])
+                if kf is not None and kf.get("covers_unknown"):
+                    known_hits.append((kf, key, vc))  # an obligation a listed (reproduced) finding says cannot hold
+                else:
+                    undecided.append((key[0], f"{vc['name']} @ {vc['path']}: solver {vc['status']} {vc['note']}", key))
         if ok:
             n_discharged += 1
     # an obligation that already fails with a listed finding is not additionally 'undecided' on its other paths
